@@ -1,7 +1,10 @@
 """Texts of MANIFEST.json (level claimed / trusted base per property)."""
-TECHNIQUE = 'Rocq (Coq 8.16) theorems on a hand-written executable model + differential correspondence of the extracted model with the Go code'
+TECHNIQUE = ('Rocq (Coq 8.16) theorems on a hand-written executable model + differential correspondence of the extracted model with the Go code '
+             '+ the integer kernel and the constants of the package translated from the Go source on every run and proved equal to the model (coq/theories/Tie)')
 HOOK_COMMITS = ['836edf2']
 NOTES = ('Every check: (1) audits and builds the Coq development and re-checks Props/<ID>.v with Print Assumptions; '
+         '(1b) for C01-C04, C06, C07, C19, C20: harness/cmd/wtgo2coq translates the integer kernel of package whispertool (floorMod, Timestamp.Add/Sub/Truncate, ArchiveInfo.MaxRetention/pointIndex/pointOffsetAt/interval/intervalForWrite, Header.Size) '
+         'and its integer constants from /repo\'s working tree into coq/theories/Gen/GoKernel.v, and coq/theories/Tie/tie_*.v re-prove that the model functions equal the translation for all inputs (DESIGN.md 11.7); '
          '(2) rebuilds the Go driver from /repo\'s working tree and compares the real code with the extracted model on generated cases. '
          'A mismatch on an observable the property constrains is reported as VIOLATION with the shrunk case as replay; '
          'a broken proof obligation with no failing input found is reported as VIOLATION ... no-failing-input-found. '
@@ -10,7 +13,8 @@ NOTES = ('Every check: (1) audits and builds the Coq development and re-checks P
 NOT_CLAIMED = {}
 
 _TB = ('Trusted: Coq kernel (vm_compute, no native_compute), no axioms declared; the hand model (Model/*.v) and its tie to the code '
-       '(Go driver + OCaml extraction via ExtrOcamlBasic + generators) which is differential testing; Flocq instance for execution only. ')
+       '(Go driver + OCaml extraction via ExtrOcamlBasic + generators) which is differential testing; the translator harness/cmd/wtgo2coq (Go integer semantics: wraps per type, / and % as Z.quot and Z.rem) '
+       'where the tie by regeneration applies; Flocq instance for execution only. ')
 LEVEL = {
     'C01': {'text': 'Theorem for every history, layout, window and clock of the no-wrap domain: a fetch returns live(write log) slot by slot '
                     '(refinement of the physical ring to an abstract log, induction over operations); the model is tied to the code by '
